@@ -8,7 +8,7 @@
 (* (and 3**39, 10**17+3, negative ones); the driver evaluates every tree    *)
 (* with the real evaluators and C02_BigJudge judges every result.           *)
 (***************************************************************************)
-EXTENDS Expr, BigNum, Json
+EXTENDS BigEval, Json
 VARIABLE ix
 
 va == V("a")  vb == V("b")  vc == V("c")
@@ -56,49 +56,6 @@ Trees == <<
   IfE(Cmp(va, ">", vb), N("Sum", << va, KI(-1) >>), vb), N("Sum", << va >>), N("Product", << vb >>),
   B("FloorDiv", va, N("Sum", << vb, N("Product", << KI(-1), vb >>) >>))       \* division by zero
 >>
-
-\* meaning of the +,-,*,min,max,if,compare part: a value record [k |-> "big", v] / [k |-> "bool", b] /
-\* [k |-> "err", e] / [k |-> "rel", ...] for the relational operators at the root
-BigV(x) == [k |-> "big", v |-> x]
-BoolB(b) == [k |-> "bool", b |-> b]
-ErrB(e) == [k |-> "err", e |-> e]
-IsBig(v) == v.k = "big"
-RECURSIVE BEval(_, _)
-FoldB(op(_, _), init, vs) ==
-    LET RECURSIVE Go(_, _)
-        Go(acc, i) == IF i > Len(vs) THEN acc
-                      ELSE IF ~IsBig(vs[i]) THEN vs[i] ELSE IF ~IsBig(acc) THEN acc
-                      ELSE Go(BigV(op(acc.v, vs[i].v)), i + 1)
-    IN Go(init, 1)
-Extreme(isMin, vs) ==
-    LET RECURSIVE Go(_, _)
-        Go(best, i) == IF i > Len(vs) THEN best
-                       ELSE IF ~IsBig(vs[i]) THEN vs[i]
-                       ELSE LET c == BigCmp(vs[i].v, best.v) IN
-                            Go(IF (isMin /\ c < 0) \/ (~isMin /\ c > 0) THEN vs[i] ELSE best, i + 1)
-    IN IF ~IsBig(vs[1]) THEN vs[1] ELSE Go(vs[1], 2)
-CmpB(op, x, y) == LET c == BigCmp(x, y) IN
-    CASE op = "<" -> c < 0 [] op = "<=" -> c <= 0 [] op = ">" -> c > 0 [] op = ">=" -> c >= 0
-      [] op = "==" -> c = 0 [] op = "!=" -> c # 0
-BEval(e, env) ==
-    CASE e.t = "Var" -> BigV(env[e.name])
-      [] e.t = "Const" -> BigV(FromInt(e.v.n))
-      [] e.t = "Sum" -> FoldB(BigAdd, BigV(BZero), [i \in 1..Len(e.c) |-> BEval(e.c[i], env)])
-      [] e.t = "Product" -> FoldB(BigMul, BigV(FromInt(1)), [i \in 1..Len(e.c) |-> BEval(e.c[i], env)])
-      [] e.t = "Power" -> LET a == BEval(e.a, env) IN IF IsBig(a) THEN BigV(BigPow(a.v, e.b.v.n)) ELSE a   \* constant exponents >= 0
-      [] e.t \in {"FloorDiv", "Remainder", "RShift"} ->
-            LET a == BEval(e.a, env)
-                b == IF e.t = "RShift" THEN BigV(FromInt(2 ^ e.b.v.n)) ELSE BEval(e.b, env) IN
-            IF ~IsBig(a) THEN a ELSE IF ~IsBig(b) THEN b
-            ELSE IF b.v.s = 0 THEN ErrB("ZeroDivisionError")
-            ELSE LET x == BigDivMod(a.v, b.v) IN BigV(IF e.t = "Remainder" THEN x.r ELSE x.q)
-      [] e.t = "LShift" -> LET a == BEval(e.a, env) IN IF IsBig(a) THEN BigV(BigMul(a.v, FromInt(2 ^ e.b.v.n))) ELSE a
-      [] e.t \in {"Max", "Min"} -> Extreme(e.t = "Min", [i \in 1..Len(e.c) |-> BEval(e.c[i], env)])
-      [] e.t = "Cmp" -> LET a == BEval(e.a, env) b == BEval(e.b, env) IN
-                        IF ~IsBig(a) THEN a ELSE IF ~IsBig(b) THEN b ELSE BoolB(CmpB(e.op, a.v, b.v))
-      [] e.t = "If" -> LET c == BEval(e.i, env) IN
-                       IF c.k # "bool" THEN c ELSE IF c.b THEN BEval(e.th, env) ELSE BEval(e.el, env)
-      [] OTHER -> ErrB("not-in-fragment")
 
 \* verdict on one observed value: "OK" or the failing clause.  aux: for a remainder at the root, the
 \* quotient the same evaluator gave for the same operands
